@@ -28,11 +28,13 @@ type wireCfg struct {
 	vcomp    bool
 	mux      bool
 	scopes   bool
+	emptyTok bool // auth.token = "": the control / proxy cipher key is derived from a public value
+	ping     bool // heartbeat every second, wait for one
 }
 
 func (w wireCfg) String() string {
-	return fmt.Sprintf("proto=%s tls=%v(nil=%v) custom=%v force=%v cert=%d enc=%v comp=%v venc=%v vcomp=%v mux=%v scopes=%v",
-		w.proto, w.tls, w.tlsNil, w.custom, w.force, w.certMode, w.enc, w.comp, w.venc, w.vcomp, w.mux, w.scopes)
+	return fmt.Sprintf("proto=%s tls=%v(nil=%v) custom=%v force=%v cert=%d enc=%v comp=%v venc=%v vcomp=%v mux=%v scopes=%v emptyToken=%v ping=%v",
+		w.proto, w.tls, w.tlsNil, w.custom, w.force, w.certMode, w.enc, w.comp, w.venc, w.vcomp, w.mux, w.scopes, w.emptyTok, w.ping)
 }
 
 // observer: what stands on the network path
@@ -62,6 +64,7 @@ type wireResult struct {
 	cfgCoq   string
 	hist     string
 	observed []string
+	public   []string // what the observer reads after also opening cipher streams keyed by a public value
 	up       bool
 	first    int
 	bytes    int
@@ -78,14 +81,20 @@ func coqClient(cc *v1.ClientCommonConfig) string {
 func runOneWire(g *hx.Gen, w wireCfg, pki *PKI) (*wireResult, error) {
 	res := &wireResult{first: -1}
 	tok := mk(g, "TK")
+	if w.emptyTok {
+		tok = ""
+	}
 	user := mk(g, "us")
 	sk := mk(g, "SK")
 	pwd := mk(g, "PW")
 	huser := mk(g, "husr") // 28 characters: neither "user" nor "user:" is a multiple of 3 long, so base64(user:pwd) contains neither base64(user) nor base64(pwd)
 	pn := []string{"", mk(g, "pa"), mk(g, "pb"), mk(g, "pc")}
 	pay := map[int]string{11: mk(g, "U1"), 12: mk(g, "D1"), 21: mk(g, "U2"), 22: mk(g, "D2"), 31: mk(g, "U3"), 32: mk(g, "D3")}
-	markers := []marker{{"ATok", tok}, {"AUser", user}, {"(ASk 3)", sk}, {"(APwd 2)", pwd}, {"(AHttpUser 2)", huser},
+	markers := []marker{{"AUser", user}, {"(ASk 3)", sk}, {"(APwd 2)", pwd}, {"(AHttpUser 2)", huser},
 		{"(AProxyName 1)", pn[1]}, {"(AProxyName 2)", pn[2]}, {"(AProxyName 3)", pn[3]}}
+	if tok != "" {
+		markers = append(markers, marker{"ATok", tok})
+	}
 	// the end user's own Authorization header is part of the tunnelled request (payload 23)
 	pay[23] = base64.StdEncoding.EncodeToString([]byte(huser + ":" + pwd))
 	for _, id := range []int{11, 12, 21, 22, 23, 31, 32} {
@@ -178,6 +187,9 @@ func runOneWire(g *hx.Gen, w wireCfg, pki *PKI) (*wireResult, error) {
 		cc.ServerAddr, cc.ServerPort = addrRelay, relay.Port()
 		cc.User = user
 		cc.Auth.AdditionalScopes = scopes
+		if w.ping {
+			cc.Transport.HeartbeatInterval = 1
+		}
 		cc.Transport.Protocol = w.proto
 		mux := w.mux
 		cc.Transport.TCPMux = &mux
@@ -247,6 +259,9 @@ func runOneWire(g *hx.Gen, w wireCfg, pki *PKI) (*wireResult, error) {
 			errs = append(errs, "stcp: "+se.Error())
 		}
 		time.Sleep(50 * time.Millisecond)
+		if w.ping {
+			time.Sleep(1300 * time.Millisecond)
+		}
 	}
 	c.Close()
 	time.Sleep(30 * time.Millisecond)
@@ -264,8 +279,27 @@ func runOneWire(g *hx.Gen, w wireCfg, pki *PKI) (*wireResult, error) {
 		}
 	}
 	sort.Strings(res.observed)
-	res.cfgCoq = fmt.Sprintf("{| w_client := %s; w_server_addr := %s; w_force := %s; w_internal := false; w_scope_hb := %s; w_scope_nwc := %s; w_pair_ok := true; w_read_ok := true |}",
-		coqClient(completed), hx.Str(addrRelay), hx.Bool(s.Cfg.Transport.TLS.Force), hx.Bool(w.scopes), hx.Bool(w.scopes))
+	res.public = append([]string(nil), res.observed...)
+	if tr, ok := relay.(*Relay); ok && w.emptyTok && !w.mux && w.proto == "tcp" {
+		seen := map[string]bool{}
+		for _, a := range res.observed {
+			seen[a] = true
+		}
+		for _, m := range markers {
+			if seen[m.atom] {
+				continue
+			}
+			for _, f := range forms(m.val) {
+				if tr.ContainsOpened(f, []byte("")) {
+					res.public = append(res.public, m.atom)
+					break
+				}
+			}
+		}
+		sort.Strings(res.public)
+	}
+	res.cfgCoq = fmt.Sprintf("{| w_client := %s; w_server_addr := %s; w_force := %s; w_internal := false; w_token_empty := %s; w_scope_hb := %s; w_scope_nwc := %s; w_pair_ok := true; w_read_ok := true |}",
+		coqClient(completed), hx.Str(addrRelay), hx.Bool(s.Cfg.Transport.TLS.Force), hx.Bool(s.Cfg.Auth.Token == ""), hx.Bool(w.scopes), hx.Bool(w.scopes))
 	pc := func(id int, kind string) string {
 		return fmt.Sprintf("(mk_pcfg %d %s %s %s)", id, kind, hx.Bool(w.enc), hx.Bool(w.comp))
 	}
@@ -278,6 +312,9 @@ func runOneWire(g *hx.Gen, w wireCfg, pki *PKI) (*wireResult, error) {
 			"EVisitorConn "+vc+" 4", "EVisitorPayload "+vc+" Down 31", "EWorkConn "+pc(3, "PkStcp")+" 5",
 			"EPayload "+pc(3, "PkStcp")+" Up 31", "EPayload "+pc(3, "PkStcp")+" Down 32", "EPayload "+pc(3, "PkStcp")+" Down 31",
 			"EVisitorPayload "+vc+" Up 32", "EVisitorPayload "+vc+" Up 31")
+		if w.ping {
+			h = append(h, "EPing 6")
+		}
 	}
 	res.hist = hx.List(h)
 	return res, nil
@@ -324,6 +361,9 @@ func lattice(g *hx.Gen, n int) []wireCfg {
 		wireCfg{proto: "kcp", mux: true},                                     // clear over kcp
 		wireCfg{proto: "kcp", tls: true, custom: true, force: true},          // TLS over kcp
 		wireCfg{proto: "tcp", enc: true, venc: true, mux: true},              // both layers on, clear transport, mux
+		wireCfg{proto: "tcp", emptyTok: true, scopes: true, ping: true},      // no token (oidc-like): the control cipher key is public
+		wireCfg{proto: "tcp", emptyTok: true, enc: true, venc: true, ping: true}, // ... and so is the proxy cipher key; the visitor layer (sk) holds
+		wireCfg{proto: "tcp", emptyTok: true, tlsNil: true},                  // no token, default TLS: nothing readable
 		wireCfg{proto: "quic"},                                               // quic is always TLS, even with tls.enable=false
 		wireCfg{proto: "quic", tls: true, certMode: 2, force: true},          // quic, mutual certificates
 	)
@@ -346,6 +386,9 @@ func lattice(g *hx.Gen, n int) []wireCfg {
 		w.enc, w.comp = g.Intn(2) == 0, g.Intn(3) == 0
 		w.venc, w.vcomp = g.Intn(2) == 0, g.Intn(3) == 0
 		w.mux, w.scopes = g.Intn(2) == 0, g.Intn(2) == 0
+		if w.proto == "tcp" && !w.mux && g.Intn(5) == 0 {
+			w.emptyTok = true
+		}
 		out = append(out, w)
 	}
 	return out[:n]
@@ -362,12 +405,15 @@ func runWire(cfg *hx.RunCfg) error {
 	cf := &hx.CaseFile{Imports: caseImports, Typ: "case", Tail: caseTail +
 		"Definition NCLEARPAYLOAD := Eval vm_compute in count_if wire_clear_payload cases.\nPrint NCLEARPAYLOAD.\n" +
 		"Definition NHIDDENALL := Eval vm_compute in count_if wire_hidden_all cases.\nPrint NHIDDENALL.\n" +
-		"Definition NREJECTED := Eval vm_compute in count_if wire_rejected cases.\nPrint NREJECTED.\n"}
+		"Definition NREJECTED := Eval vm_compute in count_if wire_rejected cases.\nPrint NREJECTED.\n" +
+		"Definition NEMPTYTOKEN := Eval vm_compute in count_if wire_empty_token cases.\nPrint NEMPTYTOKEN.\n" +
+		"Definition NPUBLICSECRET := Eval vm_compute in count_if wire_public_reads_secret cases.\nPrint NPUBLICSECRET.\n"}
 	n := cfg.N
-	if n < 18 {
-		n = 18
+	if n < 21 {
+		n = 21
 	}
 	implFail := []map[string]string{}
+	findings := []map[string]string{}
 	dist := map[string]int{}
 	distinct := map[string]bool{}
 	var samples []string
@@ -388,7 +434,7 @@ func runWire(cfg *hx.RunCfg) error {
 			implFail = append(implFail, map[string]string{"key": "tunnel-did-not-carry:" + w.proto,
 				"what": "a tunnel that came up did not carry the probe payload (three attempts): " + r.err, "case": w.String()})
 		}
-		cs := fmt.Sprintf("CWire %s %s %s %s", r.cfgCoq, r.hist, hx.List(r.observed), hx.Bool(r.up))
+		cs := fmt.Sprintf("CWire %s %s %s %s %s", r.cfgCoq, r.hist, hx.List(r.observed), hx.List(r.public), hx.Bool(r.up))
 		cf.Cases = append(cf.Cases, cs)
 		if w.proto != "kcp" && w.proto != "quic" {
 			cf.Cases = append(cf.Cases, fmt.Sprintf("CFirstByte %s %d", r.cfgCoq, r.first))
@@ -408,6 +454,18 @@ func runWire(cfg *hx.RunCfg) error {
 			}
 		}
 		effTLS := w.tls || w.tlsNil || w.proto == "wss" || w.proto == "quic"
+		for _, a := range r.public {
+			if strings.HasPrefix(a, "(ASk") || strings.HasPrefix(a, "(APwd") {
+				if w.emptyTok && !effTLS {
+					findings = append(findings, map[string]string{"key": "empty-token-cipher-key-is-public",
+						"what": "with auth.token empty and TLS off, " + a + " is read from the capture by opening the control cipher with the key derived from the empty string",
+						"case": w.String()})
+				} else if !contains(r.observed, a) {
+					implFail = append(implFail, map[string]string{"key": "secret-readable-with-public-key",
+						"what": a + " readable by an observer holding only public values", "case": w.String()})
+				}
+			}
+		}
 		if effTLS && len(r.observed) > 0 {
 			implFail = append(implFail, map[string]string{"key": "clear-under-tls",
 				"what": "markers readable on the path although the client-server transport uses TLS: " + strings.Join(r.observed, ","),
@@ -438,5 +496,15 @@ func runWire(cfg *hx.RunCfg) error {
 	cfg.St["samples"] = samples
 	cfg.St["distribution"] = dist
 	cfg.St["impl_failures"] = implFail
+	cfg.St["findings"] = findings
 	return nil
+}
+
+func contains(l []string, x string) bool {
+	for _, y := range l {
+		if x == y {
+			return true
+		}
+	}
+	return false
 }
